@@ -21,5 +21,5 @@ with open('/verif/sensitivity/RESULTS.md','w') as f:
     for r in rows:
         f.write("| %s | %s | %s | %s | %s |\n"%r)
     nq=sum(1 for r in rows if 'caught' in r[3]); nt=sum(1 for r in rows if 'caught' in r[3] or 'caught' in r[4])
-    f.write("\n%d changes; %d caught by the quick tier, %d by quick or thorough.\n"%(len(rows),nq,nt))
+    f.write("\n%d changes; %d caught by the quick tier of some check in the last full run, %d by quick or thorough. (A cell lists every check that was run against the change: the check of the property it was written against and, where noted in meta.json, C13.)\n"%(len(rows),nq,nt))
 print(open('/verif/sensitivity/RESULTS.md').read()[-300:])
